@@ -554,6 +554,22 @@ func (r *run) peerMain(ready *sync.WaitGroup) {
 	}
 }
 
+// injectBadRecord puts a record that fails authentication on the wire towards the connection under
+// test: a well-formed application-data header followed by bytes that no key produced (what an on-path
+// attacker or a flipped bit gives).  It bypasses the peer's TLS layer, whose own state stays intact.
+func (r *run) injectBadRecord(wl *glog) {
+	vers := versionOf(r.s.Ver)
+	if vers == tls.VersionTLS13 {
+		vers = tls.VersionTLS12 // frozen record version
+	}
+	rec := []byte{23, byte(vers >> 8), byte(vers), 0, 40}
+	for i := 0; i < 40; i++ {
+		rec = append(rec, byte(0xa5^i*7))
+	}
+	wl.add(r.t0, Event{"ev": "pbad"})
+	r.pc.out.write(rec)
+}
+
 func (r *run) peerWriter(hsOK bool) {
 	defer close(r.peerWDone)
 	k := 0
@@ -572,6 +588,10 @@ func (r *run) peerWriter(hsOK bool) {
 			if c.K == "ku" || c.K == "kun" {
 				err := tls.VerifConnSendKeyUpdate(r.peer, c.K == "ku")
 				wl.add(r.t0, Event{"ev": "pku", "req": c.K == "ku", "cls": classify(err)})
+				continue
+			}
+			if c.K == "bad" {
+				r.injectBadRecord(&wl)
 				continue
 			}
 			if c.K == "hr" {
@@ -597,6 +617,11 @@ func (r *run) peerWriter(hsOK bool) {
 			wl.add(r.t0, Event{"ev": "pw", "w": id, "len": ln, "k": k})
 			_, err := r.peer.Write(payload(id, ln))
 			wl.add(r.t0, Event{"ev": "pwe", "w": id, "cls": classify(err)})
+		case "bad":
+			if !hsOK {
+				continue
+			}
+			r.injectBadRecord(&wl)
 		case "ku", "kun":
 			if !hsOK {
 				continue
@@ -718,7 +743,7 @@ func runSchedule(s Schedule, watchdog time.Duration) (events []Event, stuck bool
 			}
 		case "w", "r":
 			ok = r.permitOp(&st, e.T == "r", e.G)
-		case "ps", "pc", "ku", "kun", "hr":
+		case "ps", "pc", "ku", "kun", "hr", "bad":
 			r.peerCmd <- e
 			ok = true
 		case "x":
